@@ -1,6 +1,6 @@
 (* C14: the three-valued evaluator of the implementation (eval_tv / eval_value, modelled by one
    traversal evalx) computes the reference semantics: for every well-formed expression and
-   every row of plain cells outside class 13, wherever the reference defines a value. *)
+   every row of plain cells, wherever the reference defines a value. *)
 From Coq Require Import ZArith List Bool Lia.
 From TV Require Import Model.SqlSpec Model.PredImpl Model.PredClass
   Proof.SqlSpecLaws Proof.PredBase Proof.PredLike.
@@ -131,36 +131,35 @@ Proof.
 Qed.
 
 (* ------------------------------------------------------------------ the theorem *)
-Definition good (e : expr) (v : value) (x : xval) : Prop :=
-  Rx v x /\ (as_val x = None -> is_arith e = true).
+Definition good (e : expr) (v : value) (x : xval) : Prop := Rx v x /\ True.
 
 Ltac done_xt := split; [|intros HH; cbn in HH; try discriminate; match type of HH with as_val (XT ?t) = None => destruct t as [[]|]; discriminate end].
 
 Lemma as_val_xt : forall t, as_val (XT t) <> None.
 Proof. intros [[]|]; discriminate. Qed.
 Lemma good_xt : forall e t, good e (value_of_tv t) (XT (opt_of_tv t)).
-Proof. intros e t. split; [apply Rx_of_tv|]. intros H. now apply as_val_xt in H. Qed.
+Proof. intros e t. split; [apply Rx_of_tv|exact I]. Qed.
 
 Theorem evalx_correct : forall e r v,
-  wf_expr e = true -> plain_row r = true -> cls13 e r = 0 -> eval e r = Some v ->
+  wf_expr e = true -> plain_row r = true -> eval e r = Some v ->
   exists x, evalx e r = Ok x /\ good e v x.
 Proof.
   induction e as [i|lv|op a b IHa IHb|op a b IHa IHb|a b IHa IHb|a b IHa IHb|a IHa|neg a l IHa IHl|neg a lo hi IHa IHlo IHhi|neg a p IHa IHp|neg a IHa] using expr_ind';
-    intros r v Hw Hp Hc He; cbn [wf_expr cls13] in Hw, Hc.
+    intros r v Hw Hp He; cbn [wf_expr] in Hw.
   - (* column *)
     cbn [eval] in He. cbn [evalx]. rewrite He. pose proof (plain_nth r i v Hp He) as Hv.
-    destruct v; cbn in Hv; try discriminate; cbn; eexists; (split; [reflexivity|]); split; cbn; auto; discriminate.
+    destruct v; cbn in Hv; try discriminate; cbn; eexists; (split; [reflexivity|]); split; cbn; auto.
   - (* literal *)
     cbn [eval] in He. injection He as <-. cbn [evalx].
     destruct lv as [|z|b|s|b]; cbn [lit_value]; try rewrite Hw; cbn [bindr];
-      eexists; (split; [reflexivity|]); split; cbn; auto; discriminate.
+      eexists; (split; [reflexivity|]); split; cbn; auto.
   - (* arithmetic *)
-    apply andb_prop in Hw as [W1 W2]. apply first_nz_0 in Hc as [C1 C2].
+    apply andb_prop in Hw as [W1 W2].
     cbn [eval] in He.
     destruct (eval a r) as [x|] eqn:Ea; [|discriminate].
     destruct (eval b r) as [y|] eqn:Eb; [|discriminate].
-    destruct (IHa r x ltac:(assumption) ltac:(assumption) ltac:(assumption) ltac:(assumption)) as (xa & Va & Ra & _).
-    destruct (IHb r y ltac:(assumption) ltac:(assumption) ltac:(assumption) ltac:(assumption)) as (xb & Vb & Rb & _).
+    destruct (IHa r x ltac:(assumption) ltac:(assumption) ltac:(assumption)) as (xa & Va & Ra & _).
+    destruct (IHb r y ltac:(assumption) ltac:(assumption) ltac:(assumption)) as (xb & Vb & Rb & _).
     apply Rx_as_val in Ra. apply Rx_as_val in Rb.
     cbn [evalx]. rewrite Va. cbn [bindr].
     destruct x, y; cbn [arith_values] in He; try discriminate; cbn [Rv inj] in Ra, Rb.
@@ -176,13 +175,13 @@ Proof.
       destruct (i64_ok (arith_z op z z0)); [|discriminate]. injection He as <-. cbn [bindr].
       eexists; (split; [reflexivity|]); split; cbn; auto.
   - (* comparison *)
-    apply andb_prop in Hw as [W1 W2]. apply first_nz_0 in Hc as [C1 C2].
+    apply andb_prop in Hw as [W1 W2].
     cbn [eval] in He.
     destruct (eval a r) as [x|] eqn:Ea; [|discriminate].
     destruct (eval b r) as [y|] eqn:Eb; [|discriminate].
     destruct (cmp3 op x y) as [t|] eqn:Ec; [|discriminate]. cbn in He. injection He as <-.
-    destruct (IHa r x ltac:(assumption) ltac:(assumption) ltac:(assumption) ltac:(assumption)) as (xa & Va & Ra & _).
-    destruct (IHb r y ltac:(assumption) ltac:(assumption) ltac:(assumption) ltac:(assumption)) as (xb & Vb & Rb & _).
+    destruct (IHa r x ltac:(assumption) ltac:(assumption) ltac:(assumption)) as (xa & Va & Ra & _).
+    destruct (IHb r y ltac:(assumption) ltac:(assumption) ltac:(assumption)) as (xb & Vb & Rb & _).
     apply Rx_as_val in Ra. apply Rx_as_val in Rb.
     exists (XT (cmp_tv (as_val xa) (as_val xb) op)). split.
     + cbn [evalx]. rewrite Va. cbn [bindr]. destruct (as_val xa); [|reflexivity].
@@ -190,29 +189,29 @@ Proof.
       cbn [cmp_tv]. now destruct (is_inull _ || is_inull _).
     + rewrite (cmp_tv_correct _ _ _ _ _ _ Ec Ra Rb). apply good_xt.
   - (* AND *)
-    apply andb_prop in Hw as [W1 W2]. apply first_nz_0 in Hc as [C1 C2].
+    apply andb_prop in Hw as [W1 W2].
     cbn [eval] in He.
     destruct (eval a r) as [va|] eqn:Ea; cbn in He; [|discriminate].
     destruct (tv_of_value va) as [ta|] eqn:Ta; cbn in He; [|discriminate].
     destruct (eval b r) as [vb|] eqn:Eb; cbn in He; [|discriminate].
     destruct (tv_of_value vb) as [tb|] eqn:Tb; cbn in He; [|discriminate].
     injection He as <-.
-    destruct (IHa r va ltac:(assumption) ltac:(assumption) ltac:(assumption) ltac:(assumption)) as (xa & Va & Ra & _).
-    destruct (IHb r vb ltac:(assumption) ltac:(assumption) ltac:(assumption) ltac:(assumption)) as (xb & Vb & Rb & _).
+    destruct (IHa r va ltac:(assumption) ltac:(assumption) ltac:(assumption)) as (xa & Va & Ra & _).
+    destruct (IHb r vb ltac:(assumption) ltac:(assumption) ltac:(assumption)) as (xb & Vb & Rb & _).
     exists (XT (opt_of_tv (tv_and ta tb))). split; [|apply good_xt].
     cbn [evalx]. rewrite Va. cbn [bindr]. rewrite (Rx_as_tv _ _ _ Ra Ta).
     destruct ta; cbn [opt_of_tv]; try reflexivity;
       rewrite Vb; cbn [bindr]; rewrite (Rx_as_tv _ _ _ Rb Tb); destruct tb; reflexivity.
   - (* OR *)
-    apply andb_prop in Hw as [W1 W2]. apply first_nz_0 in Hc as [C1 C2].
+    apply andb_prop in Hw as [W1 W2].
     cbn [eval] in He.
     destruct (eval a r) as [va|] eqn:Ea; cbn in He; [|discriminate].
     destruct (tv_of_value va) as [ta|] eqn:Ta; cbn in He; [|discriminate].
     destruct (eval b r) as [vb|] eqn:Eb; cbn in He; [|discriminate].
     destruct (tv_of_value vb) as [tb|] eqn:Tb; cbn in He; [|discriminate].
     injection He as <-.
-    destruct (IHa r va ltac:(assumption) ltac:(assumption) ltac:(assumption) ltac:(assumption)) as (xa & Va & Ra & _).
-    destruct (IHb r vb ltac:(assumption) ltac:(assumption) ltac:(assumption) ltac:(assumption)) as (xb & Vb & Rb & _).
+    destruct (IHa r va ltac:(assumption) ltac:(assumption) ltac:(assumption)) as (xa & Va & Ra & _).
+    destruct (IHb r vb ltac:(assumption) ltac:(assumption) ltac:(assumption)) as (xb & Vb & Rb & _).
     exists (XT (opt_of_tv (tv_or ta tb))). split; [|apply good_xt].
     cbn [evalx]. rewrite Va. cbn [bindr]. rewrite (Rx_as_tv _ _ _ Ra Ta).
     destruct ta; cbn [opt_of_tv]; try reflexivity;
@@ -222,22 +221,22 @@ Proof.
     destruct (eval a r) as [va|] eqn:Ea; cbn in He; [|discriminate].
     destruct (tv_of_value va) as [ta|] eqn:Ta; cbn in He; [|discriminate].
     injection He as <-.
-    destruct (IHa r va Hw Hp Hc Ea) as (xa & Va & Ra & _).
+    destruct (IHa r va Hw Hp Ea) as (xa & Va & Ra & _).
     exists (XT (opt_of_tv (tv_not ta))). split; [|apply good_xt].
     cbn [evalx]. rewrite Va. cbn [bindr]. rewrite (Rx_as_tv _ _ _ Ra Ta). now rewrite not3_spec.
   - (* IN *)
-    apply andb_prop in Hw as [Hw W3]. apply andb_prop in Hw as [W1 W2]. apply first_nz_0 in Hc as [C1 C2].
+    apply andb_prop in Hw as [Hw W3]. apply andb_prop in Hw as [W1 W2].
     rewrite eval_in_unfold in He.
     destruct (eval a r) as [x|] eqn:Ea; [|discriminate].
     destruct (any_spec x r l) as [tany|] eqn:Eany; [|discriminate].
     cbn in He. injection He as <-.
-    destruct (IHa r x W1 Hp C1 Ea) as (xa & Va & Ra & _). apply Rx_as_val in Ra.
+    destruct (IHa r x W1 Hp Ea) as (xa & Va & Ra & _). apply Rx_as_val in Ra.
     assert (Hne : l <> []) by (intros ->; cbn in W2; discriminate W2).
     assert (HF : Forall (fun i => forall v, eval i r = Some v -> exists xi, evalx i r = Ok xi /\ Rx v xi) l).
-    { clear - IHl W3 C2 Hp. induction IHl as [|i l Hi Hl IH]; constructor.
-      - cbn [forallb] in W3. apply andb_prop in W3 as [Wi _]. apply first_nz_0 in C2 as [Ci _].
-        intros v Hv. destruct (Hi r v Wi Hp Ci Hv) as (xi & Vi & Ri & _). eauto.
-      - cbn [forallb] in W3. apply andb_prop in W3 as [_ Wl]. apply first_nz_0 in C2 as [_ Cl]. now apply IH. }
+    { clear - IHl W3 Hp. induction IHl as [|i l Hi Hl IH]; constructor.
+      - cbn [forallb] in W3. apply andb_prop in W3 as [Wi _].
+        intros v Hv. destruct (Hi r v Wi Hp Hv) as (xi & Vi & Ri & _). eauto.
+      - cbn [forallb] in W3. apply andb_prop in W3 as [_ Wl]. now apply IH. }
     rewrite evalx_in_unfold, Va. cbn [bindr].
     destruct (value_eq_null_dec x) as [->|Hx].
     + rewrite (any_spec_null r l tany Eany Hne).
@@ -254,7 +253,6 @@ Proof.
         rewrite E. apply good_xt.
   - (* BETWEEN *)
     apply andb_prop in Hw as [Hw W3]. apply andb_prop in Hw as [W1 W2].
-    apply first_nz_0 in Hc as [H2 Hc]. apply first_nz_0 in Hc as [C1 Hc]. apply first_nz_0 in Hc as [C2 C3].
     cbn [eval] in He.
     destruct (eval a r) as [x|] eqn:Ea; [|discriminate].
     destruct (eval lo r) as [vl|] eqn:El; [|discriminate].
@@ -262,36 +260,23 @@ Proof.
     destruct (cmp3 CGe x vl) as [t1|] eqn:E1; [|discriminate].
     destruct (cmp3 CLe x vh) as [t2|] eqn:E2; [|discriminate].
     cbn in He. injection He as <-.
-    destruct (IHa r x W1 Hp C1 Ea) as (xa & Va & Ra & _).
-    destruct (IHlo r vl W2 Hp C2 El) as (xl & Vl & Rl & Al).
-    destruct (IHhi r vh W3 Hp C3 Eh) as (xh & Vh & Rh & Ah).
-    apply Rx_as_val in Ra. apply Rx_as_val in Rl. apply Rx_as_val in Rh.
-    unfold null_arith in H2. rewrite El, Eh in H2.
-    cbn [evalx]. rewrite Va. cbn [bindr].
-    destruct (as_val xa) as [xi|] eqn:Aa.
-    2:{ apply Rv_none_null in Ra. subst x. exists (XT None). split; [reflexivity|].
-        rewrite (cmp3_null_l' _ _ _ E1), (cmp3_null_l' _ _ _ E2).
-        replace (value_of_tv (if neg then tv_not (tv_and UU UU) else tv_and UU UU)) with (value_of_tv UU) by (now destruct neg).
-        apply (good_xt _ UU). }
-    rewrite Vl. cbn [bindr].
-    destruct (as_val xl) as [li|] eqn:Al'.
-    2:{ exfalso. apply Rv_none_null in Rl. subst vl. rewrite (Al eq_refl) in H2. cbn in H2. discriminate. }
-    rewrite Vh. cbn [bindr].
-    destruct (as_val xh) as [hi_|] eqn:Ah'.
-    2:{ exfalso. apply Rv_none_null in Rh. subst vh. rewrite (Ah eq_refl) in H2. cbn in H2.
-        rewrite orb_true_r in H2. discriminate. }
+    destruct (IHa r x W1 Hp Ea) as (xa & Va & Ra & _).
+    destruct (IHlo r vl W2 Hp El) as (xl & Vl & Rl & _).
+    destruct (IHhi r vh W3 Hp Eh) as (xh & Vh & Rh & _).
+    apply Rx_as_val, Rv_or_null in Ra. apply Rx_as_val, Rv_or_null in Rl. apply Rx_as_val, Rv_or_null in Rh.
+    cbn [evalx]. rewrite Va, Vl, Vh. cbn [bindr]. cbv zeta.
     eexists. split; [reflexivity|].
-    rewrite (between_side_correct CGe Lt x vl t1 xi li (or_introl (conj eq_refl eq_refl)) E1 Ra Rl).
-    rewrite (between_side_correct CLe Gt x vh t2 xi hi_ (or_intror (conj eq_refl eq_refl)) E2 Ra Rh).
+    rewrite (between_side_correct CGe Lt x vl t1 _ _ (or_introl (conj eq_refl eq_refl)) E1 Ra Rl).
+    rewrite (between_side_correct CLe Gt x vh t2 _ _ (or_intror (conj eq_refl eq_refl)) E2 Ra Rh).
     rewrite and3_spec, neg3_spec. apply good_xt.
   - (* LIKE *)
-    apply andb_prop in Hw as [W1 W2]. apply first_nz_0 in Hc as [C1 C2].
+    apply andb_prop in Hw as [W1 W2].
     cbn [eval] in He.
     destruct (eval a r) as [x|] eqn:Ea; [|discriminate].
     destruct (eval p r) as [q|] eqn:Ep; [|discriminate].
     destruct (like3 neg x q) as [t|] eqn:El; [|discriminate]. cbn in He. injection He as <-.
-    destruct (IHa r x ltac:(assumption) ltac:(assumption) ltac:(assumption) ltac:(assumption)) as (xa & Va & Ra & _).
-    destruct (IHp r q ltac:(assumption) ltac:(assumption) ltac:(assumption) ltac:(assumption)) as (xp & Vp & Rp & _).
+    destruct (IHa r x ltac:(assumption) ltac:(assumption) ltac:(assumption)) as (xa & Va & Ra & _).
+    destruct (IHp r q ltac:(assumption) ltac:(assumption) ltac:(assumption)) as (xp & Vp & Rp & _).
     apply Rx_as_val in Ra. apply Rx_as_val in Rp.
     cbn [evalx]. rewrite Va. cbn [bindr].
     destruct x as [|zx|fx|sx|bx]; cbn [like3] in El; try discriminate.
@@ -313,10 +298,10 @@ Proof.
   - (* IS NULL *)
     cbn [eval] in He.
     destruct (eval a r) as [va|] eqn:Ea; [|discriminate].
-    destruct (IHa r va Hw Hp Hc Ea) as (xa & Va & Ra & _).
+    destruct (IHa r va Hw Hp Ea) as (xa & Va & Ra & _).
     exists (XT (Some (xorb neg (x_is_null xa)))). split.
     + cbn [evalx]. rewrite Va. reflexivity.
-    + rewrite (x_is_null_correct _ _ Ra). split; [|intros HH; discriminate].
+    + rewrite (x_is_null_correct _ _ Ra). split; [|exact I].
       destruct va; injection He as <-; destruct neg; reflexivity.
 Qed.
 
@@ -326,23 +311,23 @@ Proof. now intros []. Qed.
 
 (* FilterExec: a row passes iff the predicate is TRUE *)
 Theorem eval_expr_correct : forall e r t,
-  wf_expr e = true -> plain_row r = true -> cls13 e r = 0 -> sem3 e r = Some t ->
+  wf_expr e = true -> plain_row r = true -> sem3 e r = Some t ->
   eval_expr e r = Ok (tv_is_true t).
 Proof.
-  intros e r t Hw Hp Hc Hs. unfold sem3 in Hs.
+  intros e r t Hw Hp Hs. unfold sem3 in Hs.
   destruct (eval e r) as [v|] eqn:Ee; [|discriminate]. cbn in Hs.
-  destruct (evalx_correct e r v Hw Hp Hc Ee) as (x & Vx & Rx_ & _).
+  destruct (evalx_correct e r v Hw Hp Ee) as (x & Vx & Rx_ & _).
   unfold eval_expr, eval_tv. rewrite Vx. cbn [bindr]. rewrite (Rx_as_tv _ _ _ Rx_ Hs). now destruct t.
 Qed.
 
 (* evaluate_to_value: TRUE / FALSE / NULL as the reference says *)
 Theorem eval_value_correct : forall e r t,
-  wf_expr e = true -> plain_row r = true -> cls13 e r = 0 -> sem3 e r = Some t ->
+  wf_expr e = true -> plain_row r = true -> sem3 e r = Some t ->
   exists o, eval_value e r = Ok o /\ code_of o = code_of_tv (Some t).
 Proof.
-  intros e r t Hw Hp Hc Hs. unfold sem3 in Hs.
+  intros e r t Hw Hp Hs. unfold sem3 in Hs.
   destruct (eval e r) as [v|] eqn:Ee; [|discriminate]. cbn in Hs.
-  destruct (evalx_correct e r v Hw Hp Hc Ee) as (x & Vx & Rx_ & _).
+  destruct (evalx_correct e r v Hw Hp Ee) as (x & Vx & Rx_ & _).
   unfold eval_value. rewrite Vx. cbn [bindr]. eexists. split; [reflexivity|].
   apply Rx_as_val in Rx_. rewrite (value_of_tv_inv _ _ Hs) in Rx_.
   destruct t; cbn in Rx_.
